@@ -5,24 +5,32 @@
    ev.tout the digest of a real twin that is fed only the well-formed calls, each in a canonical
    ndarray container ("-" when there is nothing to compare). *)
 EXTENDS Validation, TraceLib
-tvars == <<valvars, tid, l>>
+VARIABLE pend       \* the detector reported drift after the last accepted call: its restart (for HDDDM / CDBD with
+                    \* detect_batch = 1 this replays half of the new reference as a COUNTED proxy batch) is still pending and is
+                    \* performed by the next call - also by one that is then refused
+tvars == <<valvars, tid, l, pend>>
 Devs == IF "DEVIATIONS" \in DOMAIN IOEnv THEN IOEnv.DEVIATIONS ELSE ""
-Init == /\ tid \in 1..NTr /\ l = 1 /\ InitWith(Traces[tid].cfg)
+Init == /\ tid \in 1..NTr /\ l = 1 /\ InitWith(Traces[tid].cfg) /\ pend = FALSE
 Incs == Traces[tid].cfg.incs
+Proxy == IF \E k \in 1..Len(Incs) : Incs[k] = 2 THEN 1 ELSE 0     \* what a restart adds to the counter
 Twin == Ev.tout = "-" \/ Chk("output = output of the twin that never saw the refused calls", Ev.out, Ev.tout)
 Accepted == /\ More /\ ~broken /\ Ev.op = "update" /\ Ev.raised = "None"
-            /\ \E inc \in {Incs[k] : k \in 1..Len(Incs)} : Accept(Ev.inp, inc)
-            /\ Chk("total", total', Ev.total) /\ Twin /\ Adv
+            /\ Accept(Ev.inp, IF pend THEN 1 + Proxy ELSE 1)
+            /\ Chk("total", total', Ev.total) /\ Twin /\ pend' = Ev.drift /\ Adv
 AcceptedRef == /\ More /\ ~broken /\ Ev.op = "set_reference" /\ Ev.raised = "None"
                /\ \E inc \in {0, 1} : AcceptRef(Ev.inp, inc)
-               /\ Chk("total", total', Ev.total) /\ Twin /\ Adv
+               /\ Chk("total", total', Ev.total) /\ Twin /\ pend' = Ev.drift /\ Adv
+(* a refused call is never counted; it may perform the pending restart, whose proxy batch is *)
 Rejected == /\ More /\ ~broken /\ Ev.raised = "ValueError"
-            /\ Reject(Ev.inp) /\ Chk("total", total', Ev.total) /\ Adv
+            /\ ~Valid(Ev.inp) /\ UNCHANGED <<vcfg, dim, cols, accepted, broken>>
+            /\ \/ total' = total /\ pend' = pend
+               \/ pend /\ Proxy = 1 /\ total' = total + 1 /\ pend' = FALSE
+            /\ Chk("total", total', Ev.total) /\ Adv
 DevWidthSkip == /\ Devs = "DFWidthSkip" /\ More /\ ~broken
-                /\ Dev_DFWidthSkip(Ev.inp) /\ total' = Ev.total /\ Adv
+                /\ Dev_DFWidthSkip(Ev.inp) /\ total' = Ev.total /\ pend' = pend /\ Adv
 DevRejEst == /\ Devs = "RejectedEstablishes" /\ More /\ ~broken /\ Ev.raised = "ValueError"
-             /\ Dev_RejectedEstablishes(Ev.inp) /\ Chk("total", total', Ev.total) /\ Adv
-Havoc == /\ More /\ broken /\ total' = Ev.total /\ UNCHANGED <<vcfg, dim, cols, accepted, broken>> /\ Adv
+             /\ Dev_RejectedEstablishes(Ev.inp) /\ Chk("total", total', Ev.total) /\ pend' = pend /\ Adv
+Havoc == /\ More /\ broken /\ total' = Ev.total /\ UNCHANGED <<vcfg, dim, cols, accepted, broken, pend>> /\ Adv
 Diag == /\ Note("accepted although the rule refuses this input", More /\ ~broken /\ Ev.raised = "None" /\ ~Valid(Ev.inp), <<Ev.inp, "dim", dim, "cols", cols>>)
         /\ Note("refused although the rule accepts this input", More /\ ~broken /\ Ev.raised # "None" /\ Valid(Ev.inp), <<Ev.inp, Ev.raised, "dim", dim, "cols", cols>>)
 Next == Diag /\ (Accepted \/ AcceptedRef \/ Rejected \/ DevWidthSkip \/ DevRejEst \/ Havoc)
